@@ -7,6 +7,9 @@
 # built from the generated build.ninja by the E5 executor.  After every transition the DESTDIR tree, the install log
 # and *everything else below the scratch root* are compared with the prediction of a reference install model that is
 # computed from the generated build definition (lib/verif/c11model.py), never from install.dat.
+# Family A adds the histories in which an install cannot complete (an obstacle at the destination of any entry of the
+# model, or a vanished source): the stopped run must stay within the plan and log all it created, uninstall must give
+# back the pre-install tree, and after removing the obstacle a second install must equal an undisturbed one.
 import hashlib, itertools, json, os, re, shutil, stat, subprocess, sys, time
 from collections import deque
 from verif.core import Check, pmap, run_main, scratch_root, REPO, VERIF
@@ -488,6 +491,10 @@ def norm_log(b):
     return tuple(sorted(b.decode('utf-8', 'surrogateescape').splitlines()))
 
 
+def KIND_SUBDIR(e):
+    return e.rule.rid.startswith('subdir')
+
+
 class Runner:
     """Executes transitions of one (world, tags, skip) run and checks each against the model."""
 
@@ -496,12 +503,240 @@ class Runner:
         self.sel, self.tag_unspec = M.select(w.proj.entries, tags, skip)
         self.treekeys = set()
         self.init_tree = {}
+        self.cur_fault = None
 
     def viol(self, key, text, path, extra=None):
         rep = {'job': self.w.job, 'tags': self.tags, 'skip': self.skip, 'history': list(path)}
+        if self.cur_fault is not None:
+            rep['fault'] = self.cur_fault
         if extra:
             rep.update(extra)
         self.res['viol'].append((key, text, rep))
+
+    # -- aborted installs --------------------------------------------------------------------------------------
+    # An install cannot always be completed: a directory sits where a file (or link) has to go, a file sits where a
+    # directory has to go, a source / build product has disappeared since `meson setup`.  The installer then stops
+    # part-way.  The property's log clause does not depend on the run having succeeded: whatever the stopped run has
+    # created by then must be named in the log, so that uninstall gives back the tree from before the install.
+    # The family of such situations of a project is derived from the reference model (one or more per entry, in
+    # the order of the rule list), never from the implementation's list of error messages.
+    def faults(self, init_tree):
+        """-> list of fault dicts {'id', 'kind', 'rel' | 'src'}; counts the unspecified ones that are left out."""
+        w = self.w
+        out, seen = [], set()
+
+        def add(kind, where):
+            fid = '%s@%s' % (kind, where if isinstance(where, str) else ':'.join(where))
+            if fid in seen:
+                return
+            seen.add(fid)
+            out.append({'id': fid, 'kind': kind, ('rel' if isinstance(where, str) else 'src'): where})
+        dir_rels = {w.entry_rel(e) for e, _ in self.sel if e.kind == 'dir'}
+        for e, _ in self.sel:
+            rel = w.entry_rel(e)
+            if rel in init_tree:
+                continue
+            if e.kind == 'dir':
+                add('dst-is-file', rel)                     # a regular file where a directory has to be created
+                continue
+            add('dst-is-dir', rel)                          # a directory where a file / symlink has to be created
+            if e.kind == 'link':
+                # a regular file where a symlink has to be created: refused or replaced (not documented which; if the
+                # install completes, the complete tree is what is compared)
+                add('dst-is-file', rel)
+                out[-1]['may_replace'] = True
+            parent = os.path.dirname(rel)
+            if parent and parent not in init_tree and parent not in dir_rels:
+                add('parent-is-file', parent)               # a regular file where the implied parent directory has to go
+            if e.kind == 'file':
+                if KIND_SUBDIR(e):
+                    # install_subdir() copies what the directory holds at install time: a file that is gone is not
+                    # an error, so there is nothing to abort
+                    self.res['skipped_unspecified'] += 1
+                else:
+                    add('src-gone', tuple(e.src))           # the file to install has disappeared since configure
+        return out
+
+    def faulted_entries(self, fault):
+        w = self.w
+        bad = []
+        for e, _ in self.sel:
+            if fault['kind'] == 'src-gone':
+                if e.src is not None and tuple(e.src) == tuple(fault['src']) and not KIND_SUBDIR(e):
+                    bad.append(e)
+            else:
+                rel = w.entry_rel(e)
+                if rel == fault['rel'] or rel.startswith(fault['rel'] + '/'):
+                    bad.append(e)
+        return bad
+
+    def apply_fault(self, fault):
+        """Produce the situation in the file system; returns what undo_fault needs."""
+        w = self.w
+        if fault['kind'] == 'src-gone':
+            p = w.srcpath(fault['src'])
+            st = os.stat(p)
+            with open(p, 'rb') as f:
+                saved = (p, f.read(), stat.S_IMODE(st.st_mode), st.st_mtime_ns)
+            os.unlink(p)
+            return saved
+        p = os.path.join(w.treeroot, fault['rel'])
+        os.makedirs(os.path.dirname(p), exist_ok=True)
+        if fault['kind'] == 'dst-is-dir':
+            os.mkdir(p)
+        else:
+            with open(p, 'wb') as f:
+                f.write(b'in the way\n')
+            os.chmod(p, 0o644)
+        return (p,)
+
+    def undo_fault(self, saved):
+        if len(saved) == 1:
+            p = saved[0]
+            if os.path.isdir(p) and not os.path.islink(p):
+                if not os.listdir(p):
+                    os.rmdir(p)
+            elif os.path.lexists(p):
+                os.unlink(p)
+            return
+        p, content, mode, mt = saved
+        with open(p, 'wb') as f:
+            f.write(content)
+        os.chmod(p, mode)
+        os.utime(p, ns=(mt, mt))
+
+    def abort_step(self, pre, fault, path):
+        """`meson install` in a situation in which it cannot complete.  -> State after the stopped run, or None."""
+        from verif import mesonproc as mp
+        w = self.w
+        before_out = snap_outside(w.root, w.treeroot)
+        r = mp.run_meson(w.install_argv(self.tags, self.skip), w.b, w.env(), pre=SANDBOX)
+        self.res['transitions'] += 1
+        obs = snap_tree(w.treeroot)
+        after_out = snap_outside(w.root, w.treeroot)
+        log = open(w.logpath, 'rb').read() if os.path.exists(w.logpath) else None
+        self.treekeys.add(tree_key(obs))
+        bad = self.faulted_entries(fault)
+        if r.rc == 0 and fault.get('may_replace'):
+            self.res['fault_replaced'] += 1
+            self.res['skipped_unspecified'] += 1
+            exp, skipped = predict_install(w, {k: v for k, v in pre.items() if k != fault['rel']}, self.sel)
+            for key, text in compare_tree(w, obs, exp, 'A')[:3]:
+                self.viol(key, text, path)
+            return None
+        if r.rc == 0:
+            self.viol('C11:A:fault-ignored:%s' % fault['kind'], 'install exited 0 although %s cannot be installed (%s)'
+                      % (', '.join(repr(w.entry_rel(e)) for e in bad[:3]), fault['id']), path)
+            return None
+        m = re.search(r"Read-only file system: '([^']*)'", r.out)
+        if m:
+            self.viol('C11:A:escape-attempt', 'the command tried to write %r, which is outside DESTDIR and outside the scratch root '
+                      '(refused by the read-only sandbox)' % m.group(1), path)
+            return None
+        self.res['aborts'] += 1
+        for rel in sorted(set(before_out) | set(after_out)):
+            if before_out.get(rel) != after_out.get(rel) and rel != w.logrel:
+                self.viol('C11:A:outside:%s' % classify_outside(rel),
+                          '%r outside the DESTDIR tree changed: %r -> %r' % (rel, before_out.get(rel), after_out.get(rel)), path)
+                break
+        # -- exactness of a partial install: what exists is what was there before plus (some of) what the rules specify
+        badset = set(id(e) for e in bad)
+        ok = [(e, False) for e, _ in self.sel if id(e) not in badset]
+        exp, skipped = predict_install(w, pre, ok)
+        for e in bad:       # the directory above something that could not be installed may or may not have been made
+            parts = w.entry_rel(e).split('/')
+            for i in range(1, len(parts)):
+                exp.setdefault('/'.join(parts[:i]), Exp('dir', M.UNSPEC, None, optional=True))
+        self.res['skipped_unspecified'] += skipped
+        for key, text in compare_tree(w, obs, exp, 'A')[:3]:
+            self.viol(key, text, path)
+        self.res['tree_compares'] += 1
+        self.res['entries_compared'] += len(exp)
+        # -- the log names everything the stopped run created, and nothing it did not create
+        created = sorted(rel for rel in obs if rel not in pre)
+        if any(obs[rel][0] == 'dir' for rel in created):
+            self.res['aborts_after_mkdir'] += 1
+        self.res['abort_created_paths'] += len(created)
+        pl = parse_log(w)
+        if pl is None:
+            if created:
+                self.viol('C11:A:log:absent', 'the stopped install created %r but wrote no install log' % created[0], path)
+        else:
+            inside, outside, _ = pl
+            self.res['abort_log_checks'] += 1
+            if outside:
+                self.viol('C11:A:log:outside-path', 'log names a path outside DESTDIR: %r' % outside[0], path)
+            replaced = {w.entry_rel(e) for e, _ in ok if e.kind != 'dir'}
+            miss = [rel for rel in created if rel not in set(inside)]
+            extra = sorted(set(inside) - set(created) - replaced)
+            if miss:
+                kind = obs[miss[0]][0]
+                self.viol('C11:A:log:missing-%s' % kind, 'the stopped install created %s %r (and %d more paths) without naming it in the install log'
+                          % (kind, miss[0], len(miss) - 1), path)
+            if extra:
+                self.viol('C11:A:log:extra', 'install log names %r which this run did not create' % extra[0], path)
+        return State(obs, log, 0, path, None)
+
+    def run_abort(self, init_tree, only=None):
+        w = self.w
+        self.init_tree = init_tree
+        s0 = State(init_tree, None, 0, (), None)
+        self.treekeys.add(tree_key(init_tree))
+        # reference: the tree that one undisturbed install from the initial tree gives
+        self.restore(s0)
+        clean = self.step(s0, 'I', restore=False)
+        if clean is None:
+            return
+        # directories that a rule names and that exist beforehand: "left in place", their mode afterwards is not specified
+        unspec = {w.entry_rel(e) for e, _ in self.sel if e.kind == 'dir'}
+
+        def rkey(t):
+            return tuple(sorted((rel, v[0], None if (v[0] == 'dir' and rel in unspec) else v[1], sha(v[2]) if v[0] == 'file' else v[2])
+                                for rel, v in t.items()))
+        for fault in self.faults(init_tree):
+            if only is not None and fault['id'] not in only:
+                continue
+            self.cur_fault = fault['id']
+            self.res['faults'] += 1
+            self.res['faults_' + fault['kind'].replace('-', '_')] += 1
+            self.restore(s0)
+            saved = self.apply_fault(fault)
+            try:
+                pre = snap_tree(w.treeroot)
+                path = ('fault ' + fault['id'], 'I(stops)')
+                sa = self.abort_step(pre, fault, path)
+                if sa is None:
+                    continue
+                # history 1: stopped install -> uninstall == the tree from before the install
+                su = self.step(sa, 'U', restore=False)
+                self.res['traces'] += 1
+                if su is not None:
+                    self.res['abort_reversal_checks'] += 1
+                    if rkey(su.tree) != rkey(pre):
+                        self.viol('C11:AU:not-reversed', 'a stopped install followed by uninstall does not give back the pre-install tree: %s'
+                                  % diff_text(pre, su.tree), su.path)
+                # history 2: stopped install -> remove the obstacle -> install == an undisturbed install
+                restore_tree(w.treeroot, sa.tree)
+                if sa.log is not None:
+                    with open(w.logpath, 'wb') as f:
+                        f.write(sa.log)
+                self.undo_fault(saved)
+                saved = None
+                fixed = snap_tree(w.treeroot)
+                sf = self.step(State(fixed, sa.log, 0, sa.path + ('fix',), None), 'I', restore=False)
+                self.res['traces'] += 1
+                if sf is not None:
+                    self.res['abort_reinstall_checks'] += 1
+                    mine = {rel: v for rel, v in sf.tree.items() if rel not in pre}
+                    ref = {rel: v for rel, v in clean.tree.items() if rel not in pre}
+                    if tree_key(mine) != tree_key(ref):
+                        self.viol('C11:AI:differs-from-clean-install', 'stopped install, obstacle removed, install again differs from an undisturbed '
+                                  'install: %s' % diff_text(ref, mine), sf.path)
+            finally:
+                if saved is not None:
+                    self.undo_fault(saved)
+                self.cur_fault = None
+        self.res['states'] += len(self.treekeys)
 
     def restore(self, st):
         w = self.w
@@ -564,7 +799,14 @@ class Runner:
                 self.viol('C11:%s:escape-attempt' % act, 'the command tried to write %r, which is outside DESTDIR and outside the scratch root '
                           '(refused by the read-only sandbox)' % m.group(1), path)
             else:
-                self.viol('C11:%s:command-failed' % act, 'command exited %d: %s' % (r.rc, r.out[-400:]), path)
+                k = 'C11:%s:command-failed' % act
+                if act in ('I', 'C') and 'FileExistsError' in r.out:
+                    # classifier: the tree held a dangling symlink at the destination of an entry of the model
+                    dang = [rel for rel in (w.entry_rel(e) for e, _ in self.sel if e.kind != 'dir')
+                            if T.get(rel, ('',))[0] == 'link' and resolve_alias(T, rel) not in T]
+                    if dang:
+                        k += ':dangling-symlink-at-destination'
+                self.viol(k, 'command exited %d: %s' % (r.rc, r.out[-400:]), path)
             return None
         # -- confinement: nothing outside the DESTDIR tree changes except the install log ----------------------
         allowed = {w.logrel} if act != 'U' else set()
@@ -909,7 +1151,9 @@ def strace_install(w, tags, skip, res):
 # ------------------------------------------------------------------------------------------------------------
 COUNTERS = ('transitions', 'states', 'product_states', 'traces', 'tree_compares', 'entries_compared', 'log_checks', 'dry_runs',
             'uninstalls', 'reversal_checks', 'idempotence_checks', 'only_changed_preserved', 'skipped_unspecified', 'replays',
-            'plan_entries', 'strace_runs', 'strace_mutations', 'setups', 'built')
+            'plan_entries', 'strace_runs', 'strace_mutations', 'setups', 'built',
+            'faults', 'faults_dst_is_dir', 'faults_dst_is_file', 'faults_parent_is_file', 'faults_src_gone', 'aborts', 'aborts_after_mkdir',
+            'abort_created_paths', 'abort_log_checks', 'abort_reversal_checks', 'abort_reinstall_checks', 'fault_replaced')
 
 
 def run_job(job):
@@ -931,6 +1175,8 @@ def run_job(job):
         init = w.initial_tree(job['init'])
         if hist[0] == 'seq':
             rn_.run_seq(init, hist[1])
+        elif hist[0] == 'abort':
+            rn_.run_abort(init, hist[1])
         else:
             rn_.run_bfs(init, hist[1])
         if run.get('strace'):
@@ -973,6 +1219,10 @@ FILTER_PROJECTS = [
     (['exe', 'shlib', 'stlib', 'custom2', 'headers_subdir', 'symlink_rel'], ['runtime', 'devel', 'custom']),
 ]
 SKIPS = [None, '*', 'sp', 'other']
+# family A (installs that cannot complete): multi-rule projects that together hold every rule variant, so that an obstacle
+# can be put at every entry of every kind of rule while other rules have already created (or still have to create) things
+ABORT_PROJECTS = [FILTER_PROJECTS[0][0], FILTER_PROJECTS[1][0],
+                  ['data_abs', 'headers_preserve', 'man_locale', 'subdir_plain', 'subdir_strip', 'subdir_nofollow']]
 # --tags rotation of the pair family: none (3 of 7), one tag, two tags
 P_TAGS = [None, ['devel'], None, ['runtime', 'custom'], ['custom'], None, ['devel', 'man']]
 
@@ -1046,13 +1296,26 @@ def jobs_for(ck):
                 jobs.append(mkjob('F-%d' % idx, 'F', rules, M.UMASKS[(idx + d) % 3], p, M.DESTDIRS[d], 'flag' if idx % 2 else 'env',
                                   'prepop' if idx % 2 else 'absent', runs, with_sub=True, sub_style=M.STYLES[(d + 2) % 3]))
                 idx += 1
+    # family A: every aborting situation (see Runner.faults) of each ABORT_PROJECT; quick: one configuration per project,
+    # thorough: the 9 OA rows x both initial trees
+    idx = 0
+    for pi, rids in enumerate(ABORT_PROJECTS):
+        if ck.thorough:
+            confs = [(row, init) for row in OA9 for init in ('absent', 'prepop')]
+        else:
+            confs = [(OA9[(pi * 4 + seed) % 9], 'prepop' if (pi + seed) % 2 else 'absent')]
+        for (a, b, c, d), init in confs:
+            rules = [(rid, M.STYLES[(k + a) % 3], M.MODES[(k + b) % 3]) for k, rid in enumerate(rids)]
+            jobs.append(mkjob('A-%d' % idx, 'A', rules, M.UMASKS[c], (idx + pi) % 2, M.DESTDIRS[d], 'flag' if (idx + pi) % 2 else 'env', init,
+                              [run_spec(None, None, ('abort', None))], with_sub=(pi == 0), sub_style=M.STYLES[(a + 1) % 3]))
+            idx += 1
     return jobs
 
 
 def job_cost(j):
     c = 0
     for r in j['runs']:
-        c += 50 if r['hist'][0] == 'bfs' else len(r['hist'][1])
+        c += 50 if r['hist'][0] == 'bfs' else 100 if r['hist'][0] == 'abort' else len(r['hist'][1])
         c += 8 if r.get('strace') else 0
     return c + 3
 
@@ -1064,6 +1327,8 @@ def replay_job(d):
     if d.get('strace'):
         hist = []
     job['runs'] = [run_spec(d.get('tags'), d.get('skip'), ('seq', list(hist)), strace=bool(d.get('strace')))]
+    if d.get('fault'):
+        job['runs'] = [run_spec(d.get('tags'), d.get('skip'), ('abort', [d['fault']]))]
     job['id'] = 'replay-' + str(job['id'])
     return job
 
@@ -1071,7 +1336,7 @@ def replay_job(d):
 def replay(ck):
     d = json.load(open(ck.args.replay))
     job = replay_job(d)
-    hist = job['runs'][0]['hist'][1]
+    hist = job['runs'][0]['hist'][1] if not d.get('fault') else d.get('history')
     from verif import mesonproc as mp
     mp.preimport()
     probe_sandbox()
@@ -1137,6 +1402,11 @@ def main():
                 if again['internal'] or key not in [v[0] for v in again['viol']]:
                     ck.internal('violation %s of %s did not reproduce when its history was replayed from scratch (%s)'
                                 % (key, j['id'], again['internal'] or [v[0] for v in again['viol']]))
+        if j['family'] == 'A':
+            ck.sample({'job': j['id'], 'rules': j['rules'], 'umask': j['umask'], 'prefix': M.PREFIXES[j['prefix']], 'destdir': j['destdir'],
+                       'mechanism': j['mech'], 'initial_tree': j['init'], 'aborting_situations': res['faults'], 'installs_that_stopped': res['aborts'],
+                       'stopped_after_creating_directories': res['aborts_after_mkdir'], 'transitions': res['transitions'],
+                       'histories': 'obstacle, install (stops), uninstall | obstacle, install (stops), obstacle removed, install'}, cap=9)
         if j['family'] in ('H', 'F') and res['transitions'] > 20:
             ck.sample({'job': j['id'], 'rules': j['rules'], 'umask': j['umask'], 'prefix': M.PREFIXES[j['prefix']], 'destdir': j['destdir'],
                        'mechanism': j['mech'], 'initial_tree': j['init'], 'tags': j['runs'][0]['tags'], 'skip_subprojects': j['runs'][0]['skip'],
@@ -1149,11 +1419,20 @@ def main():
         ck.internal('%d jobs failed in the harness, first: %s' % (len(internal), internal[0]))
     for name, f in sorted(fam.items()):
         ck.part('family_' + name, **f)
+
+    ck.part('aborted_installs', **{k: tot[k] for k in COUNTERS if k.startswith(('fault', 'abort'))})
+    covered = set(r for rids in ABORT_PROJECTS for r in rids)
+    ck.require(covered == set(M.RULE_IDS), 'ABORT_PROJECTS do not hold every rule variant: %s' % sorted(set(M.RULE_IDS) - covered))
     full = not ck.args.only and ck.n_viol == 0      # anti-vacuity applies to clean runs; a verdict is never turned into exit 2
     ck.require(not full or tot['tree_compares'] > 100 and tot['log_checks'] > 100, 'too few install steps compared')
     ck.require(not full or tot['reversal_checks'] > 20 and tot['idempotence_checks'] > 20 and tot['dry_runs'] > 20, 'reversal / idempotence / dry-run never exercised')
     ck.require(not full or tot['only_changed_preserved'] > 5, '--only-changed never preserved a file')
     ck.require(not full or tot['built'] > 5, 'no built targets installed')
+    ck.require(not full or (tot['aborts'] > 50 and tot['aborts_after_mkdir'] > 25 and tot['abort_log_checks'] > 50),
+               'installs that stop part-way after having created directories were not exercised')
+    ck.require(not full or (tot['abort_reversal_checks'] > 50 and tot['abort_reinstall_checks'] > 50), 'stopped install -> uninstall / -> reinstall never compared')
+    ck.require(not full or all(tot[k] > 3 for k in ('faults_dst_is_dir', 'faults_dst_is_file', 'faults_parent_is_file', 'faults_src_gone')),
+               'a kind of aborting situation is missing')
     ck.require(not full or tot['plan_entries'] > 50, 'install plan never compared')
     if ck.thorough and full:
         ck.require(tot['strace_runs'] > 10 and tot['strace_mutations'] > 100, 'strace slice did not observe mutations')
@@ -1174,7 +1453,11 @@ def main():
               rule='rule sets: every single rule variant of %d (x %s), every unordered pair (x %s)%s; histories: explicit-state search to '
                    'depth 3 over {install, touch+install --only-changed, install --dry-run, uninstall} from every single rule and %s pairs, '
                    'the linear history dry-run, install, install, [foreign file], uninstall everywhere else; --tags (none, each single tag, '
-                   'each pair) x --skip-subprojects (unset, all, sp, other) on %d multi-rule projects with an installing subproject. states = '
+                   'each pair) x --skip-subprojects (unset, all, sp, other) on %d multi-rule projects with an installing subproject; installs that '
+                   'cannot complete: on 3 multi-rule projects that together hold every rule variant, every entry of the model x {a directory '
+                   'where the file/link goes, a file where the directory/link goes, a file where the implied parent directory goes, the source '
+                   'or build product gone} -> install (must stop; partial tree within the plan; log names all it created) -> uninstall == '
+                   'pre-install tree, and -> obstacle removed -> install == undisturbed install. states = '
                    'distinct DESTDIR trees per run, transitions = install/uninstall commands executed, every one compared with the model'
                    % (len(M.RULE_IDS),
                       'style x mode x umask x prefix x DESTDIR kind = 162 configurations' if ck.thorough else 'the 9 rows of a pairwise-covering orthogonal array over name style, install_mode, install_umask, DESTDIR kind; prefix / initial tree / DESTDIR mechanism alternate with the index',
